@@ -64,8 +64,12 @@ sim_plan("C03", ["dag", "roomy"], miri_parts=["dag"], tsan_parts=["dag"])
 LEVEL["C04"] = "exploration"
 RULES["C04"] = ("generated deadlock-free benches on ST / controlled ST / MT 2-16 threads with delays focused in turn on every executor protocol site; "
                 "at every Ok return no handler or port operation is open and no model event lies outside a call; per-command invocation multisets equal the "
-                "reference interpreter on every executor; hang watchdog (no progress + all threads sleeping); non-trivial = more than one handler ran")
+                "reference interpreter on every executor; hang watchdog (no progress + all threads sleeping); part wide: one handler wakes 300-3000 leaf tasks (more than a worker's 256-slot local queue, "
+                "so buckets of tasks travel through the injector concurrently) which forward to one collector through a small mailbox, 20-60 rounds per simulation on 2-16 threads: every call must return Ok with every "
+                "leaf and collector handler run exactly once per round; non-trivial = more than one handler ran / wide execution in which injector buckets were popped")
 sim_plan("C04", ["dag", "mt", "timer"], miri_parts=["mt"], tsan_parts=["mt"])
+PLAN["C04"]["quick"].append(job("native", "wide", 16, 600))
+PLAN["C04"]["thorough"] += [job("native", "wide", 16, 3000), miri("wide", 2, 2, 3000), job("tsan", "wide", 8, 1800, args=["--scale", "0.02"])]
 LEVEL["C05"] = "exploration"
 RULES["C05"] = ("capacity-1 DAG benches on MT executors with delays at task/executor/channel sites; per-model busy flag and HBegin/HEnd stamp intervals must never overlap; "
                 "a plain (non-atomic) model field written by every handler exposes double polls to Miri/TSan as data races; non-trivial = a handler started while a sender was suspended")
